@@ -283,5 +283,16 @@ def defer_failpause(lab):
     return plan(), d
 
 
-CORPUS = dict(declared=declared, double_stage=double_stage, failpause=failpause, defer_failpause=defer_failpause, count2=count2, scan2=scan2, scan3=scan3, rel_scan2=rel_scan2, list_scan2=list_scan2, grid2x2=grid2x2, adaptive=adaptive, tune=tune,
+def count_norewind(lab):
+    """count with a delay over a detector that declares itself not rewindable (trigger_and_read toggles the engine's flag)."""
+    import types
+
+    import bluesky.plans as bp
+
+    d = _std(lab)
+    d["det"].rewindable = types.SimpleNamespace(get=lambda: False)
+    return bp.count([d["det"]], 3, delay=0.5), d
+
+
+CORPUS = dict(count_norewind=count_norewind, declared=declared, double_stage=double_stage, failpause=failpause, defer_failpause=defer_failpause, count2=count2, scan2=scan2, scan3=scan3, rel_scan2=rel_scan2, list_scan2=list_scan2, grid2x2=grid2x2, adaptive=adaptive, tune=tune,
               fly1=fly1, bare=bare, cleanup=cleanup, staged_monitor=staged_monitor, nested_runs=nested_runs, flymon=flymon)
